@@ -325,6 +325,39 @@ func checkPrefix(c *Ctx, rule string, f *ssa.Function) int {
 				x, pos, need = s.X, s.Pos(), v+1
 			}
 		}
+		// bounds of the form len(x)-k need len(x) >= k just the same (x[:len(x)-1] of the empty string panics)
+		if need <= 0 {
+			var xv ssa.Value
+			var bounds []ssa.Value
+			switch sx := i.(type) {
+			case *ssa.Slice:
+				if isStringType(sx.X.Type()) {
+					xv, pos, bounds = sx.X, sx.Pos(), []ssa.Value{sx.Low, sx.High}
+				}
+			case *ssa.Index:
+				if isStringType(sx.X.Type()) {
+					xv, pos, bounds = sx.X, sx.Pos(), []ssa.Value{sx.Index}
+				}
+			case *ssa.Lookup:
+				if isStringType(sx.X.Type()) {
+					xv, pos, bounds = sx.X, sx.Pos(), []ssa.Value{sx.Index}
+				}
+			}
+			if xv != nil {
+				xs := tb.T(xv).String()
+				for _, b := range bounds {
+					if b == nil {
+						continue
+					}
+					bt := tb.T(b)
+					if bt.isBin("-") && bt.Args[0].String() == "call[builtin:len]("+xs+")" {
+						if k, ok := bt.Args[1].constInt(); ok && k > need {
+							x, need = xv, k
+						}
+					}
+				}
+			}
+		}
 		if x == nil || need <= 0 {
 			return
 		}
